@@ -167,7 +167,7 @@ double Integrate(std::function<double(double)> func, double a, double b, const s
 	else if(a != b)
 		Check_Integration_Limits(a, b, sign);
 	if(method == "Trapezoidal")
-		return sign * trapezoidal(func, a, b);
+		return sign * trapezoidal(func, a, b, boost::math::tools::root_epsilon<double>(), 16);	// 16 refinements (boost's default of 12 leaves oscillating integrands at 3e-6)
 	else if(method == "Gauss-Legendre")
 		return sign * gauss<double, 30>::integrate(func, a, b);
 	else if(method == "Gauss-Kronrod")
